@@ -213,6 +213,22 @@ class P:
             lab = self.eat()
             self.eat(";")
             return ("goto", lab)
+        if tok == "new" and self.peek(1) == "(":
+            # placement new of an item: `new(p) Item(a, b, c);`
+            self.eat("new"); self.eat("(")
+            target = self.expr()
+            self.eat(")")
+            if self.eat() != "Item":
+                raise Refuse(f"{self.fn}: placement new of something that is not an Item")
+            self.eat("(")
+            args = []
+            if self.peek() != ")":
+                args.append(self.expr())
+                while self.peek() == ",":
+                    self.eat(",")
+                    args.append(self.expr())
+            self.eat(")"); self.eat(";")
+            return ("construct", target, args)
         if tok in ("switch", "new", "delete"):
             raise Refuse(f"{self.fn}: statement `{tok}` is outside the translated subset")
         # declaration?
@@ -306,7 +322,10 @@ class P:
         if tok == "*":
             self.eat()
             return ("deref", self.unary())
-        if tok in ("--", "~"):
+        if tok == "--":
+            self.eat()
+            return ("predec", self.unary())
+        if tok == "~":
             raise Refuse(f"{self.fn}: operator `{tok}` is outside the translated subset")
         return self.postfix()
 
@@ -338,6 +357,9 @@ class P:
             if op == "." and self.peek() == "item":
                 self.eat()
                 a = ("dotitem", a)
+                continue
+            if op == "." and a == ("id", "endItem"):
+                a = ("field", ("endptr",), self.eat())      # `endItem.prev` is `(&endItem)->prev`
                 continue
             if op != "->":
                 raise Refuse(f"{self.fn}: operator `{op}` is outside the translated subset")
@@ -408,6 +430,10 @@ class Tr:
                 return "h.root", "ptr"
             if not self.in_item and x == "_end":
                 return "h.endItem", "ptr"             # the Iterator whose item is &endItem
+            if not self.in_item and x == "freeItem":
+                return "h.freeItem", "ptr"
+            if not self.in_item and x == "_size":
+                return "h.size", "usize"
             raise Refuse(f"{self.fn}: unknown name `{x}`")
         if k == "deref":
             x = self.strip(e[1])
@@ -548,6 +574,16 @@ class Tr:
             if tt != "ptr":
                 raise Refuse(f"{self.fn}: {tt} stored into root")
             return f"{ind}let h := h.set Cell.root {t}\n", env, None
+        if lhs[0] == "id" and not self.in_item and lhs[1] == "freeItem" and "freeItem" not in env:
+            t, tt = self.rv(rhs, env, "ptr")
+            if tt != "ptr":
+                raise Refuse(f"{self.fn}: {tt} stored into freeItem")
+            return f"{ind}let h := h.setFree {t}\n", env, None
+        if lhs[0] == "id" and not self.in_item and lhs[1] == "_size" and "_size" not in env:
+            t, tt = self.rv(rhs, env, "usize")
+            if tt != "usize":
+                raise Refuse(f"{self.fn}: {tt} stored into _size")
+            return f"{ind}let h := h.setSize {t}\n", env, None
         if lhs[0] == "field":
             fty = self.field_type(lhs[2])
             if self.fields[lhs[2]][1]:
@@ -713,6 +749,7 @@ class Tr2(Tr):
         self.pure, self.counting, self.fuel, self.ret = me["pure"], me["counting"], me["fuel"], me["ret"]
         self.loops = []
         self.nloops = 0
+        self.ctor = None
 
     # -- results
     def res_type(self):
@@ -871,16 +908,61 @@ class Tr2(Tr):
                 return f"{pre}{ind}if ({val} ≠ 0) then\n{a}{ind}else\n{b}"
             return self.ifthen(c, env, ind, lambda i: self.stmts2([s[2]] + rest, env, i, lp),
                                lambda i: self.stmts2([s[3]] + rest, env, i, lp))
+        if k == "construct":
+            # `new(p) Item(parent, key, value);` : the stores of the constructor's initialiser list (read from struct Item)
+            if self.ctor is None:
+                raise Refuse(f"{self.fn}: placement new, but no constructor Item(Item*, const T&, const V&) with an empty body was found")
+            cparams, inits = self.ctor
+            if len(s[2]) != len(cparams):
+                raise Refuse(f"{self.fn}: Item constructed with {len(s[2])} arguments")
+            tgt, tty = self.rv(s[1], env, "ptr")
+            if tty != "ptr":
+                raise Refuse(f"{self.fn}: placement new at {tty}")
+            argt = {}
+            for (pty, pname), a in zip(cparams, s[2]):
+                t, tt = self.rv(a, env, pty)
+                if tt != pty:
+                    raise Refuse(f"{self.fn}: constructor argument `{pname}` is {tt}, expected {pty}")
+                argt[pname] = (t, tt)
+            lines = ""
+            for f, val in inits:
+                fty = self.field_type(f)
+                if val in argt:
+                    t, tt = argt[val]
+                elif re.fullmatch(r"\d+", val):
+                    t, tt = self.rv(("lit", int(val)), env, fty)
+                    if tt == "lit":
+                        tt = fty
+                else:
+                    raise Refuse(f"{self.fn}: constructor initialiser `{f}({val})`")
+                if tt != fty:
+                    raise Refuse(f"{self.fn}: constructor stores {tt} into the {fty} member `{f}`")
+                lines += f"{ind}let h := h.set{f[0].upper() + f[1:]} {tgt} {t}\n"
+            return lines + self.stmts2(rest, env, ind, lp)
         if k == "expr":
             e = self.strip(s[1])
-            if e[0] == "preinc":
+            if e[0] in ("preinc", "predec"):
                 x = self.strip(e[1])
-                if x[0] != "id" or env.get(x[1]) != "usize":
-                    raise Refuse(f"{self.fn}: `++` on something that is not a usize local")
+                op = "+" if e[0] == "preinc" else "-"
+                if x == ("id", "_size") and "_size" not in env and not self.in_item:
+                    return f"{ind}let h := h.setSize (h.size {op} 1)\n" + self.stmts2(rest, env, ind, lp)
+                if x[0] != "id" or env.get(x[1]) != "usize" or op == "-":
+                    raise Refuse(f"{self.fn}: `{op}{op}` on something that is not a usize local")
                 return f"{ind}let {lean_name(x[1])} := {lean_name(x[1])} + 1\n" + self.stmts2(rest, env, ind, lp)
             if e[0] == "assign":
                 rhs = self.strip(e[2])
                 lhs = self.strip(e[1])
+                if rhs[0] == "assign":
+                    # `a = b = e;` is `b = e; a = b;`
+                    return self.stmts2([("expr", rhs), ("expr", ("assign", lhs, rhs[1]))] + rest, env, ind, lp)
+                if rhs[0] == "call" and rhs[1] == "__allocBlock":
+                    # the block allocation idiom (recognised as a unit in front of the parser)
+                    if lhs[0] != "id" or env.get(lhs[1]) != "ptr" or len(rhs[2]) != 1 or self.strip(rhs[2][0])[0] != "lit":
+                        raise Refuse(f"{self.fn}: block allocation stored into something that is not an Item* local")
+                    self.fresh += 1
+                    tmp = f"r{self.fresh}"
+                    return (f"{ind}let {tmp} := h.allocBlock {self.strip(rhs[2][0])[1]} 0\n{ind}let h := {tmp}.1\n"
+                            f"{ind}let {lean_name(lhs[1])} := {tmp}.2\n") + self.stmts2(rest, env, ind, lp)
                 if lhs[0] == "id" and env.get(lhs[1]) == "cellptr":
                     return f"{ind}let {lean_name(lhs[1])} : Cell := {self.lvaddr(rhs, env)}\n" + self.stmts2(rest, env, ind, lp)
                 if lhs[0] == "deref":
@@ -902,6 +984,29 @@ class Tr2(Tr):
                     raise Refuse(f"{self.fn}: call of member `{e[2]}`")
                 t, ty = self.rv(e[1], env, "ptr")
                 return f"{ind}let h := updateHeightAndSlope h {t}\n" + self.stmts2(rest, env, ind, lp)
+            if e[0] == "call" and e[1] in self.info and e[1] not in self.sigs and self.info[e[1]]["ret"] == "void":
+                # a fragment outlined by the translator (insertThread / insertRebalance): called on the enclosing locals
+                inf = self.info[e[1]]
+                if len(inf["params"]) != len(e[2]) or inf["pure"] or inf["counting"]:
+                    raise Refuse(f"{self.fn}: call of `{e[1]}`")
+                args = []
+                for (pty, _), a in zip(inf["params"], e[2]):
+                    a = self.strip(a)
+                    if pty == "cellptr":
+                        if a[0] != "id" or env.get(a[1]) != "cellptr":
+                            raise Refuse(f"{self.fn}: `{e[1]}` needs an Item** local")
+                        args.append(lean_name(a[1]))
+                    else:
+                        t, tt = self.rv(a, env, pty)
+                        if tt != pty:
+                            raise Refuse(f"{self.fn}: argument of `{e[1]}` is {tt}, expected {pty}")
+                        args.append(t)
+                if inf["fuel"]:
+                    if not self.fuel:
+                        raise Refuse(f"{self.fn}: calls the looping `{e[1]}` but has no fuel itself")
+                    body = self.stmts2(rest, env, ind + "    ", lp)
+                    return f"{ind}match {e[1]} fuel h {' '.join(args)} with\n{ind}| none => none\n{ind}| some h =>\n{body}"
+                return f"{ind}let h := {e[1]} h {' '.join(args)}\n" + self.stmts2(rest, env, ind, lp)
             if e[0] == "call" and e[1] in self.sigs and self.sigs[e[1]][0] == "void":
                 rty, params = self.sigs[e[1]]
                 if len(params) != len(e[2]):
@@ -1191,6 +1296,7 @@ def translate_header(path):
             raise Refuse("insertDescend: trailing tokens")
         loop = ("for", None, None, [], ("block", body_items))
         dshape = "goto"
+        leaf_span = (mb.end() + mi.end(), mb.end() + bend - 1)      # the content of `if(!position) { ... }`
     else:
         mf = re.search(r"\bfor\s*\(", ibody)
         if not mf or (mnew and mf.start() > mnew.start()):
@@ -1206,6 +1312,7 @@ def translate_header(path):
         if p.peek() is not None or loop[0] != "for":
             raise Refuse("insertDescend: the extracted fragment is not one for loop")
         dshape = "for"
+        leaf_span = (bend, len(ibody))                               # what follows the descending loop
     norm["insertDescend"] = toks
     loop, hoisted = hoist_loop_locals(loop)
     if dshape == "for" and loop[1] is not None and loop[1][0] == "decl" and loop[1][3] is None:
@@ -1233,6 +1340,43 @@ def translate_header(path):
         raise Refuse("insertThread: cannot isolate the threading statements")
     asts["insertThread"] = (items, [("cellptr", "cell"), ("ptr", "parent"), ("ptr", "item")], "void")
     order2.append("insertThread")
+    # the part of the private insert that links the new item (everything the descent was cut off from): allocation,
+    # construction, `*cell = item`, `++_size`, first-item case, threading, upward loop.  The threading statements and the
+    # upward loop are outlined: replaced by calls of the fragments `insertThread` / `insertRebalance` translated above
+    # (the SAME text spans), so that the theorems about them apply.
+    if not (leaf_span[0] <= mfp.start() and wend <= leaf_span[1]):
+        raise Refuse("insertLeaf: the first-item test / the upward loop are not inside the part that links the new item")
+    after = ibody[wend:leaf_span[1]]
+    msc = re.match(r"\s*;", after)
+    if not msc:
+        raise Refuse("insertLeaf: `do {...} while(...)` without `;`")
+    mid = ibody[fend:dos[0]]
+    has_else = re.match(r"\s*else\s*\{", mid) is not None
+    leaf_txt = (ibody[leaf_span[0]:fend] + (" else { " if has_else else " ") + "insertThread(cell, parent, item); insertRebalance(parent); "
+                + after[msc.end():])
+    leaf_txt, nalloc = outline_alloc(leaf_txt, src)
+    toks = tokenize(leaf_txt)
+    norm["insertLeaf"] = toks
+    p = P(toks, "insertLeaf")
+    items = p.block_items()
+    if p.peek() is not None:
+        raise Refuse("insertLeaf: trailing tokens")
+    asts["insertLeaf"] = (items, iparams, "ptr")
+    order2.append("insertLeaf")
+    ctor = item_ctor(src[istart:iend])
+    # the public plain insert: `return insert(&root, 0, key, value);`
+    mp = re.search(r"Iterator\s+insert\s*\(\s*const\s+T\s*&\s*(\w+)\s*,\s*const\s+V\s*&\s*(\w+)\s*\)\s*\{", src)
+    if not mp:
+        raise Refuse("insert(const T&, const V&) not found")
+    pbody = src[mp.end():balanced(src, mp.end() - 1) - 1]
+    toks = tokenize(pbody)
+    norm["insertPlainHead"] = toks
+    p = P(toks, "insertPlainHead")
+    items = p.block_items()
+    if p.peek() is not None:
+        raise Refuse("insertPlainHead: trailing tokens")
+    asts["insertPlainHead"] = (items, [("key", mp.group(1)), ("val", mp.group(2))], "desc")
+    order2.append("insertPlainHead")
     # the hinted insert: the neighbour tests in front of the private insert
     mh = re.search(r"Iterator\s+insert\s*\(\s*const\s+Iterator\s*&\s*(\w+)\s*,\s*const\s+T\s*&\s*(\w+)\s*,"
                    r"\s*const\s+V\s*&\s*(\w+)\s*\)\s*\{", src)
@@ -1292,6 +1436,7 @@ def translate_header(path):
     for fn in order2:
         items, params, ret = asts[fn]
         tr = Tr2(fn, sigs, fields, False, info)
+        tr.ctor = ctor
         env = {name: ty for ty, name in params}
         if fn == "insertDescend":
             def leaf(env_, ind_):
@@ -1313,7 +1458,93 @@ def translate_header(path):
         body_l = tr.stmts2(items, env, "  ", None)
         binders = (" (fuel : Nat)" if info[fn]["fuel"] else "") + " (h : Heap)" + (" (c : Nat)" if info[fn]["counting"] else "") + tr.binders([(n, t) for t, n in params])
         out[fn] = "\n".join(tr.loops) + ("\n" if tr.loops else "") + f"def {fn}{binders} : {tr.res_type()} :=\n{body_l}"
+    # ---- compositions: the complete private insert = descent, then (tag 1) the linking part in the cell / under the
+    # parent the descent reached; the public inserts = their head (which cell the private insert is started in), then the
+    # private insert.  Tag 0 = the function returned the item in the second component.
+    def compose(name, head, head_args, binders, callee):
+        hp = info[head]["pure"]
+        pat = ("(tag, p, cell, c)" if hp else "(h, tag, p, cell, c)")
+        call = f"{head}{' fuel' if info[head]['fuel'] else ''} h c {head_args}"
+        tail = f"if tag = 0 then some (h, p, c) else {callee} fuel h c cell p v_key v_value"
+        if info[head]["fuel"]:
+            return (f"def {name} (fuel : Nat) (h : Heap) (c : Nat){binders} : Option (Heap × Nat × Nat) :=\n"
+                    f"  match {call} with\n  | none => none\n  | some {pat} => {tail}\n")
+        return (f"def {name} (fuel : Nat) (h : Heap) (c : Nat){binders} : Option (Heap × Nat × Nat) :=\n"
+                f"  match {call} with\n  | {pat} => {tail}\n")
+    kv = " (v_key : Int) (v_value : Int)"
+    if [n for _, n in iparams] != ["cell", "parent", "key", "value"]:
+        raise Refuse(f"private insert: parameters {iparams}, expected (cell, parent, key, value)")
+    for fn_, want in (("insertPlainHead", ["key", "value"]), ("insertHint", ["position", "key", "value"])):
+        got = [n for _, n in asts[fn_][1]]
+        if got[-2:] != ["key", "value"] or len(got) != len(want):
+            raise Refuse(f"{fn_}: parameters {got}, expected {want}")
+    hint_pos = lean_name(asts["insertHint"][1][0][1])
+    out["insertPrivate"] = compose("insertPrivate", "insertDescend", "v_cell v_parent v_key v_value",
+                                   " (v_cell : Cell) (v_parent : Nat)" + kv, "insertLeaf")
+    out["insertPlain"] = compose("insertPlain", "insertPlainHead", "v_key v_value", kv, "insertPrivate")
+    out["insertAt"] = compose("insertAt", "insertHint", f"{hint_pos} v_key v_value", f" ({hint_pos} : Nat)" + kv, "insertPrivate")
+    order2 += ["insertPrivate", "insertPlain", "insertAt"]
     return out, norm, order2
+
+
+RX_ALLOC_CORE = (r"ItemBlock\s*\*\s*(?P<b>\w+)\s*=\s*\(\s*ItemBlock\s*\*\s*\)\s*new\s+char\s*\[\s*sizeof\s*\(\s*ItemBlock\s*\)\s*\+\s*"
+                 r"sizeof\s*\(\s*Item\s*\)\s*\*\s*(?P<n1>\w+)\s*\]\s*;\s*(?P=b)\s*->\s*next\s*=\s*blocks\s*;\s*blocks\s*=\s*(?P=b)\s*;\s*")
+RX_ALLOC_FILL = (r"for\s*\(\s*Item\s*\*\s*(?P<i>\w+)\s*=\s*\(\s*Item\s*\*\s*\)\s*\(\s*(?P=b)\s*\+\s*1\s*\)\s*,\s*\*\s*(?P<e>\w+)\s*=\s*(?P=i)\s*\+\s*"
+                 r"(?P<n2>\w+)\s*;\s*(?P=i)\s*<\s*(?P=e)\s*;\s*\+\+\s*(?P=i)\s*\)\s*\{\s*(?P=i)\s*->\s*prev\s*=\s*(?P=x)\s*;\s*(?P=x)\s*=\s*(?P=i)\s*;\s*\}\s*")
+
+
+def resolve_const(tok, src):
+    if re.fullmatch(r"\d+", tok):
+        return int(tok)
+    for rx in (r"enum\s*\w*\s*\{[^}]*\b" + tok + r"\s*=\s*(\d+)", r"static\s+const\s+\w+\s+" + tok + r"\s*=\s*(\d+)\s*;"):
+        m = re.search(rx, src)
+        if m:
+            return int(m.group(1))
+    raise Refuse(f"block allocation: cannot evaluate `{tok}`")
+
+
+def outline_alloc(txt, src):
+    """replace the block allocation idiom by `x = __allocBlock(N);`.  Two forms are recognised:
+       inline   `if(!x) { ItemBlock* b = (ItemBlock*)new char[...N]; b->next = blocks; blocks = b; for(...fill...) {i->prev = x; x = i;} freeItem = x; }`
+       function `x = f()` where `Item* f() { ItemBlock* b = ...; Item* y = 0; for(...fill onto y...) return y; }`
+    (the chain starts at null in both: the inline form is guarded by `!x`)"""
+    def same_n(m):
+        n1, n2 = resolve_const(m.group("n1"), src), resolve_const(m.group("n2"), src)
+        if n1 != n2 or n1 < 1:
+            raise Refuse(f"block allocation: the block has room for {n1} items, the fill loop covers {n2}")
+        return n1
+    rx_inline = re.compile(r"if\s*\(\s*!\s*(?P<x>\w+)\s*\)\s*\{\s*" + RX_ALLOC_CORE + RX_ALLOC_FILL + r"freeItem\s*=\s*(?P=x)\s*;\s*\}")
+    ms = list(rx_inline.finditer(txt))
+    if len(ms) == 1:
+        m = ms[0]
+        n = same_n(m)
+        x = m.group("x")
+        return txt[:m.start()] + f"if(!{x}) {{ {x} = __allocBlock({n}); freeItem = {x}; }}" + txt[m.end():], n
+    rx_fun = re.compile(r"Item\s*\*\s*(?P<f>\w+)\s*\(\s*\)\s*\{\s*" + RX_ALLOC_CORE + r"Item\s*\*\s*(?P<x>\w+)\s*=\s*0\s*;\s*" + RX_ALLOC_FILL
+                        + r"return\s+(?P=x)\s*;\s*\}")
+    fs = list(rx_fun.finditer(src))
+    if len(fs) == 1:
+        m = fs[0]
+        n = same_n(m)
+        calls = list(re.finditer(r"\b" + m.group("f") + r"\s*\(\s*\)", txt))
+        if len(calls) == 1:
+            c = calls[0]
+            return txt[:c.start()] + f"__allocBlock({n})" + txt[c.end():], n
+    raise Refuse("insertLeaf: the block allocation (`new char[sizeof(ItemBlock) + sizeof(Item) * N]` + fill loop) is not in a recognised form")
+
+
+def item_ctor(item_src):
+    """parameters and initialiser list of `Item(Item* parent, const T& key, const V& value) : a(x), ... {}`"""
+    m = re.search(r"\bItem\s*\(\s*Item\s*\*\s*(\w+)\s*,\s*const\s+T\s*&\s*(\w+)\s*,\s*const\s+V\s*&\s*(\w+)\s*\)\s*:\s*([^{}]*)\{\s*\}", item_src)
+    if not m:
+        return None
+    inits = []
+    for part in m.group(4).split(","):
+        mi = re.fullmatch(r"\s*(\w+)\s*\(\s*(\w+)\s*\)\s*", part)
+        if not mi:
+            raise Refuse(f"Item constructor: initialiser `{part.strip()}`")
+        inits.append((mi.group(1), mi.group(2)))
+    return [("ptr", m.group(1)), ("key", m.group(2)), ("val", m.group(3))], inits
 
 
 def hoist_loop_locals(loop):
